@@ -61,6 +61,17 @@ CHECKS = {
             "Values come from a boundary palette (plus seed values), not all 2^32; the Rust side is driven through the "
             "verification harness' thin command layer.",
             "DESIGN.md section 4, C08"),
+    "C11": ("model_checking",
+            "explicit-state exploration of store/load histories on the real Python PCE500Memory and Rust MemoryImage for a "
+            "product of memory configurations, each transition judged against the implementation's own pre-state with a "
+            "reference canonicalisation/classification",
+            "For every configuration (ROM image, card none/absent/sizes, RAM+ROM overlays, mirror, read-only range) all store "
+            "histories up to depth 2 over 8/16/24-bit stores at 29 boundary addresses (+32-bit aliases) are executed; after each, "
+            "79 probe bytes are read back: the stored bytes must appear exactly at the canonical target cells when writable, and "
+            "nothing else may change (RAM law, frame, internal/external separation, read-only, LE composition, alias equality).",
+            "Addresses 0x100100-0xFFFFFF are outside the documented space and not judged; device windows are not installed on "
+            "the bare memory objects; overlay precedence among overlapping overlays is not constrained by the statement.",
+            "DESIGN.md section 4, C11"),
     "C13": ("model_checking",
             "explicit-state BFS to closure over tick/reset/snapshot/ISR-clear histories on the real TimerScheduler "
             "(via PCE500Emulator._tick_timers) and Rust TimerContext::tick_timers against a reference timer pair",
